@@ -38,6 +38,44 @@ def carriage(F, ck, q, exempt, crate='plonky2'):
     ck.ob('R16.1', 'fields:' + fn.qual, n >= 1, '%d verbatim fields' % n)
 
 
+def uniform_arity(F, ck, rule):
+    """no product of the position in the FRI arity schedule with the arity at that position (a uniform-arity assumption)"""
+    # the schedule is never assumed uniform: no product of the position in the schedule with the arity at that position
+    nun = 0
+    for fn in sorted(F.fns.values(), key=lambda f: f.qual):
+        if fn.crate != 'plonky2' or fn.body is None:
+            continue
+        for lp in walk(fn.body):
+            # `for (i, &a) in <..reduction_arity_bits..>.iter().enumerate()` or the closure form `.enumerate().map(|(i, &bits)| ..)`
+            cands = []
+            if lp.get('k') == 'For' and any(x.get('n') == 'reduction_arity_bits' or x.get('n') == 'arity_bits' for x in walk(lp['it']) if x.get('k') in ('Field', 'Local')) \
+                    and 'enumerate' in iter_chain_names(lp['it']):
+                cands.append((lp['p'], lp['b']))
+            if lp.get('k') == 'MCall' and lp.get('n') in ('map', 'for_each', 'scan', 'flat_map') and 'enumerate' in iter_chain_names(lp['r']) \
+                    and any(x.get('n') in ('reduction_arity_bits', 'arity_bits') for x in walk(lp['r']) if x.get('k') in ('Field', 'Local')):
+                for a_ in lp.get('a', []):
+                    if a_.get('k') == 'Closure' and a_['p']:
+                        cands.append((a_['p'][0], a_['b']))
+            for pat, body in cands:
+                from .facts import pat_binds
+                ids = [b['id'] for b in pat_binds(pat)]
+                if len(ids) < 2:
+                    continue
+                nun += 1
+                cnt, elt = ids[0], set(ids[1:])
+                bad = None
+                for x in walk(body):
+                    if x.get('k') == 'Bin' and x['op'] == 'Mul':
+                        l_ids = {y['id'] for y in walk(x['l']) if y.get('k') == 'Local'}
+                        r_ids = {y['id'] for y in walk(x['r']) if y.get('k') == 'Local'}
+                        if (cnt in l_ids and elt & r_ids) or (cnt in r_ids and elt & l_ids):
+                            bad = x
+                ck.ob(rule, 'non-uniform:%s:%s' % (fn.qual, (bad or lp).get('s', '?').split(':')[1] if False else fn.name), bad is None, 'no position x arity product' if bad is None else
+                      'UNIFORM-ARITY ASSUMPTION in %s: the position in the FRI arity schedule is multiplied by the arity at that position - correct only when all layers have the same arity; '
+                      'for mixed schedules (Fixed([1,2]), MinSize) indices / heights of the later layers are wrong' % fn.qual, (bad or lp).get('s'))
+    ck.notes[rule + ' enumerated traversals of the arity schedule examined'] = nun
+
+
 def run(F, ck, tier):
     E = ob.Engine(F, ck)
     ck.rule('R16.1', 'compress/decompress carry every non-query field verbatim')
@@ -129,6 +167,7 @@ def run(F, ck, tier):
               ('CompressedFriProof::decompress derives a per-layer usize vector from reduction_arity_bits without accumulating over the previous layers (no scan / fold / running update): '
                'for schedules whose layers have different arities the tree heights of the later layers are wrong and decompression yields other Merkle paths than were compressed') if cums else
               'CompressedFriProof::decompress no longer derives the per-layer heights from reduction_arity_bits in a recognisable form', cums[0][0].get('s') if cums else '%s:%d' % (dc[0].file, dc[0].line))
+    uniform_arity(F, ck, 'R16.3')
     # R16.4
     a = F.one('fri::verifier::fri_verifier_query_round', crate='plonky2')
     b = [f for f in F.find('CompressedProofWithPublicInputs::get_inferred_elements', crate='plonky2')]
